@@ -772,6 +772,24 @@ def run(tier, seed, replay):
         for fa in ("csr", "dense", "dia"):
             attempt("Qobj.permute", lambda: q.to(fa).permute(order).full(), [fa], None, T, data=data)
             attempt("Qobj.ptrace", lambda: q.to(fa).ptrace(sel).full(), [fa], None, traced, data=data)
+    # dimensions whose product is not the size of the operand are refused, in every storage form (no silent garbage, no
+    # reads outside the buffers)
+    for shape_, dims_ in (((4, 4), [2, 2, 2]), ((6, 6), [2, 2]), ((4, 1), [2, 2, 2]), ((1, 4), [2, 2, 2]), ((6, 6), [3, 3])):
+        Aw = np.zeros(shape_, dtype=complex)
+        Aw[0, shape_[1] - 1] = 2.0
+        if shape_[0] > 1:
+            Aw[shape_[0] - 1, 0] = 1j
+        for form in FORMS:
+            rep.evaluations += 1
+            rep.count("permute-wrong-size")
+            try:
+                Xw = build(Aw, form, rng)
+                out_ = _data.permute.dimensions(Xw, dims_, list(range(len(dims_)))[::-1])
+                v(f"permute-wrong-size:{form}", f"permute.dimensions of a {shape_[0]}x{shape_[1]} operand ({form}) with dimensions {dims_} (product {int(np.prod(dims_))}) returns a matrix of shape {out_.shape} instead of refusing", {"shape": list(shape_), "dims": dims_, "form": form})
+            except (ValueError, TypeError):
+                pass
+            except Exception as e:
+                v(f"permute-wrong-size:{form}", f"permute.dimensions of a {shape_[0]}x{shape_[1]} operand ({form}) with dimensions {dims_} (product {int(np.prod(dims_))}) fails with {type(e).__name__}: {e} instead of refusing the dimensions"[:300], {"shape": list(shape_), "dims": dims_, "form": form})
     # ------------------------------------------------------------------ in-place tidy-up, then further operations
     for it in range(12 if tier == "quick" else 80):
         n = int(rng.choice([4, 6]))
